@@ -10,13 +10,6 @@ Inductive tok :=
 Definition sym (s : string) : list N := map N_of_ascii (list_ascii_of_string s).
 Definition S (s : string) : tok := TS (sym s).
 
-Fixpoint list_eqb (a b : list N) : bool :=
-  match a, b with
-  | [], [] => true
-  | x :: a', y :: b' => (x =? y) && list_eqb a' b'
-  | _, _ => false
-  end.
-
 Definition is_sym (t : tok) (s : string) : bool :=
   match t with TS l => list_eqb l (sym s) | _ => false end.
 
